@@ -151,8 +151,8 @@ func Typed() []Case {
 		one("switch-without-tag-with-init", "{% switch x := F(1); %}{% case x > 1 %}a{% default %}b{% end %}{%% switch y := F(2); { case y > 2: show y; default: } %%}"),
 		one("type-switch-with-init", "{%% var i interface{} = K; switch j := i; v := j.(type) { case int: show v; case string, bool: show v; default: } %%}{% switch j := interface{}(gs); j.(type) %}{% case string %}s{% end %}"),
 		one("for-and-if-with-init", "{% if x := F(1); x > 1 %}a{% else if y := F(x); y > 1 %}b{% else %}c{% end %}{% for i := 0; i < 2; i++ %}{{ i }}{% end %}{% for i, v := range []int{1, 2} %}{{ i + v }}{% end %}{% for v in []string{gs} %}{{ v }}{% else %}e{% end %}"),
-		one("labels-and-select", "{%% ch := make(chan int, 1); L: for { select { case v, ok := <-ch: show v, ok; break L; case ch <- 1: continue L; default: break L } } %%}"),
-		one("parenthesised-leaves", "{% (x) := (1) %}{{ F((x)) + ((K)) }}{{ (gs) }}"),
+		one("labels-and-select", "{%% ch := make(chan int, 1); L: for i := 0; i < 2; i++ { if i > 0 { break L }; select { case v, ok := <-ch: show v, ok; case ch <- 1: continue L; default: } } %%}"),
+		one("parenthesised-leaves", "{% var x = (1) %}{% (x) = ((2)) %}{{ F((x)) + ((K)) }}{{ (gs) }}{{ ((\"s\")) }}"),
 		one("select-and-defer", "{%% ch := make(chan int, 1); f := func() { defer func() { recover() }(); select { case ch <- g: default: } }; f(); show <-ch %%}"),
 		{Name: "typed:render", Entry: "index.html", Files: map[string]string{"index.html": "{% x := 1 %}{{ render \"p.html\" }}{% f := func() int { return x } %}{{ f() }}", "p.html": "{% y := 2 %}{% h := func() int { return y + g } %}{{ h() }}"}},
 		{Name: "typed:import", Entry: "index.html", Files: map[string]string{"index.html": "{% import \"lib.html\" %}{{ A() }}{{ B() }}{% macro C %}{{ V }}{{ A() }}{% end %}{{ C() }}", "lib.html": lib}},
